@@ -456,6 +456,8 @@ class Model(Immutable):
     @cache_method
     def __hash__(self):
         dataset_hash = hash_df_runtime(self._dataset) if self._dataset is not None else None
+        iie = self._initial_individual_estimates
+        iie_hash = hash_df_runtime(iie) if iie is not None else None
         return hash(
             (
                 self._parameters,
@@ -464,7 +466,7 @@ class Model(Immutable):
                 self._dependent_variables,
                 self._observation_transformation,
                 self._execution_steps,
-                self._initial_individual_estimates,
+                iie_hash,
                 self._datainfo,
                 dataset_hash,
                 self._value_type,
